@@ -283,7 +283,7 @@ pub fn gen_case(rng: &mut Rng, opts: &GenOpts) -> Case {
         type_set.insert(g);
     }
 
-    let char_ngram_model = char_set
+    let mut char_ngram_model: Vec<NgramData<String>> = char_set
         .iter()
         .map(|g| NgramData {
             ngram: g.iter().collect::<String>(),
@@ -302,7 +302,14 @@ pub fn gen_case(rng: &mut Rng, opts: &GenOpts) -> Case {
         .map(|w| WordWeightRecord {
             word: w.iter().collect::<String>(),
             weights: gen_weights(rng, w.len() + 1, class),
-            comment: if rng.chance(1, 5) { "c,\"x\"\n".to_string() } else { String::new() },
+            comment: if rng.chance(1, 5) {
+                "c,\"x\"\n".to_string()
+            } else if rng.chance(1, 40) {
+                // a long annotation (comments are free text of any length)
+                "註,\"long\" ".repeat(rng.urange(8, 400))
+            } else {
+                String::new()
+            },
         })
         .collect();
     rng.shuffle(&mut dict_model);
@@ -313,6 +320,35 @@ pub fn gen_case(rng: &mut Rng, opts: &GenOpts) -> Case {
         twin.weights = gen_weights(rng, twin.word.chars().count() + 1, class);
         let at = if rng.chance(2, 3) { i + 1 } else { rng.below(dict_model.len() + 1) };
         dict_model.insert(at, twin);
+    }
+
+    // entries with the same weight values at different positions / lengths (value-equal, not position-equal)
+    if rng.chance(1, 8) {
+        let donor: Option<Vec<i32>> = char_ngram_model
+            .iter()
+            .map(|d| d.weights.clone())
+            .chain(dict_model.iter().map(|d| d.weights.clone()))
+            .find(|w| w.iter().any(|&x| x != 0));
+        if let Some(mut w) = donor {
+            while w.last() == Some(&0) {
+                w.pop();
+            }
+            let fit = |len: usize| -> Vec<i32> {
+                let mut v = w.clone();
+                v.resize(len, 0);
+                v
+            };
+            for d in char_ngram_model.iter_mut() {
+                if rng.chance(1, 2) {
+                    d.weights = fit(d.weights.len());
+                }
+            }
+            for d in dict_model.iter_mut() {
+                if rng.chance(1, 2) {
+                    d.weights = fit(d.weights.len());
+                }
+            }
+        }
     }
 
     let bias = match rng.below(4) {
